@@ -18,10 +18,15 @@ for f in sorted(glob.glob(os.path.join(ROOT, "seeded", "*", "meta.json"))):
             elif i == 0:
                 missed_first = True
     status = "caught" if caught else "MISSED"
+    own = m.get("property")
+    own_caught = any(r["exit"] == 1 for r in runs.get(own, []))
+    other = sorted(pid for pid, rs in runs.items() if pid != own and any(r["exit"] == 1 for r in rs))
     if not caught and m.get("outside_the_quantifier"):
         status = "not reported (outside the property's quantifier, see 14.2)"
     if caught and missed_first:
         status = "caught after strengthening"
+    if caught and not own_caught and other:
+        status = "caught by the check of " + ", ".join(other)
     rows.append((name, (m.get("title") or "").replace("|", "/")[:150], (m.get("needs_to_manifest") or "").replace("|", "/").replace("\n", " ")[:170], status, "; ".join(caught) if caught else "-", m.get("note", "")))
 print("| Seeded change | What it does | Needs, to manifest | Result | Caught by |")
 print("|---|---|---|---|---|")
@@ -30,4 +35,5 @@ for r in rows:
 n = len(rows)
 c = sum(1 for r in rows if r[3].startswith("caught"))
 o = sum(1 for r in rows if r[3].startswith("not reported"))
-print("\n%d seeded changes kept, %d caught (%d only after a check was strengthened), %d outside the quantifier of its property, %d missed." % (n, c, sum(1 for r in rows if "after" in r[3]), o, n - c - o))
+x = sum(1 for r in rows if r[3].startswith("caught by the check of"))
+print("\n%d seeded changes kept, %d caught (%d only after a check was strengthened, %d only by the check of another property), %d outside the quantifier of its property, %d missed." % (n, c, sum(1 for r in rows if "after" in r[3]), x, o, n - c - o))
